@@ -263,7 +263,7 @@ Section Crash.
 
   (* the executable guard of C06_partial *)
   Definition crash_guard (x : csess) (start : wstate) (k : nat) (t : N) : bool :=
-    match crash_class x start k t with COpen | CBoundary | CHead => true | _ => false end.
+    match crash_class x start k t with COpen | CResume | CBoundary | CHead => true | _ => false end.
 
   (* blocks whose Put had returned when the crash happened / blocks ever handed to Put *)
   (* number of puts of the crashing process that had returned when write k+1 was being issued *)
